@@ -148,6 +148,15 @@ impl Project for FileBackedProject {
     }
 
     fn semantic(&mut self) -> Result<(), Vec<Diagnostic>> {
+        #[cfg(ironplc_verif)]
+        ironplc_dsl::verif::event(
+            "order",
+            self.sources
+                .keys()
+                .map(|k| k.to_string())
+                .collect::<Vec<_>>()
+                .join("|"),
+        );
         let library_results: Vec<_> = self
             .sources
             .iter_mut()
